@@ -379,6 +379,16 @@ func c15Scenarios(tier string) []*world.Scenario {
 				}
 			}
 		}
+		// two connections per node: the lost one carries only part of the node's requests
+		if n == "get-get" || n == "mget-split" || n == "mset-sameA2" {
+			for _, kind := range []string{"backend-close", "backend-rst"} {
+				cs := ClientOf(pipes[n], true)
+				follow(&cs, keysA[5])
+				add(fmt.Sprintf("%s/%s/2conns-per-node", n, kind), "backend-close-several-connections", "inflight-lost-on-backend-close",
+					&world.Scenario{Nodes: T3m(), Bound: b, Clients: []world.ClientSpec{cs}, ServerConns: 2,
+						Faults: []world.Fault{{Kind: kind, Addr: AddrA, AfterW: 1}}})
+			}
+		}
 		// two clients sharing the lost connection
 		cs0 := ClientOf(pipes[n], true)
 		cs1 := ClientOf([]Req{GetReq(keysA[6])}, true)
@@ -617,6 +627,34 @@ func c16Scenarios(tier string) []*world.Scenario {
 					return vs
 				}
 				out = append(out, sc)
+				if !late {
+					// the same while the proxy is busy: the clock passes the deadline without epoll_wait ever returning "no events"
+					busy := *sc
+					busy.BusyTicks = true
+					busy.Name += "/busy"
+					busy.Family = "stall-busy"
+					out = append(out, &busy)
+				}
+				if n == "A,B,A" || n == "M2,A" {
+					// two connections per node: requests to one node travel on different connections, deadlines are per fragment
+					two := *sc
+					two.ServerConns = 2
+					two.Name += "/2conns-per-node"
+					two.Family = "stall-several-connections"
+					// with two connections a later request to the stalled NODE need not queue behind the stalled reply
+					cl := two.Clients[0]
+					cl.ExpectAlt = map[int][]byte{}
+					for k, v := range cs.ExpectAlt {
+						cl.ExpectAlt[k] = v
+					}
+					for i := range pcopy {
+						if _, ok := cl.ExpectAlt[i]; !ok {
+							cl.ExpectAlt[i] = pcopy[i].r.Expect
+						}
+					}
+					two.Clients = []world.ClientSpec{cl}
+					out = append(out, &two)
+				}
 			}
 		}
 	}
